@@ -185,7 +185,8 @@ def validate_shard(traces, dev, workdir, tag, timeout=600):
             results[todo[k]] = {"ok": False, "kind": "invariant", "invariant": m.group(1), "offset": off, "props": [m.group(1)[:3]]}
             todo = todo[k + 1:]
             continue
-        raise ToolError("TLC trace validation failed unexpectedly:\n" + out[-3000:])
+        m = re.search(r"(Error: .*?)(?:Error: The behavior|$)", out, re.S)
+        raise ToolError("TLC trace validation failed unexpectedly:\n" + (m.group(1)[:1500] if m else "") + "\n...\n" + out[-1200:])
     return results
 
 
@@ -302,7 +303,7 @@ class Prog:
             k = self.h[x]
             o = {"op": op, "h": x}
             if op in ("send", "call"):
-                o["scr"] = rng.choice(self.scripts)
+                o["scr"] = self.scripts() if callable(self.scripts) else rng.choice(self.scripts)
             if (op, k) in NEWKIND:
                 nh = self.fresh()
                 o["nh"] = nh
